@@ -47,7 +47,14 @@ fn crate_ident(n: &str) -> String {
 
 fn gen_ws(rng: &mut Rng) -> Ws {
     let k = rng.range(1, 5);
-    let crates: Vec<String> = CRATE_NAMES[..k].iter().map(|s| s.to_string()).collect();
+    let mut crates: Vec<String> = CRATE_NAMES[..k].iter().map(|s| s.to_string()).collect();
+    // a directory above `src` may carry dots (`alpha.v2` next to `alpha`): not nameable in a `use`, so nobody refers to
+    // its types from outside, but its types still go to the file named after it
+    let dotted = rng.chance(1, 3);
+    if dotted {
+        crates.push(format!("{}.v2", crates[0]));
+    }
+    let k = crates.len();
     let mut files = vec![];
     for c in 0..k {
         let nf = rng.range(1, 3);
@@ -83,6 +90,9 @@ fn gen_ws(rng: &mut Rng) -> Ws {
             if types[i].refs.iter().any(|(x, _)| *x == t) {
                 continue;
             }
+            if types[t].krate != types[i].krate && crates[types[t].krate].contains('.') {
+                continue;
+            }
             let form = if types[t].krate == types[i].krate {
                 if types[t].file == types[i].file {
                     "same-file"
@@ -95,7 +105,7 @@ fn gen_ws(rng: &mut Rng) -> Ws {
             types[i].refs.push((t, form));
             // a generic target takes a type argument: often another (earlier, non-generic) type, written in a form of its own
             if types[t].generic && rng.chance(2, 3) {
-                let cands: Vec<usize> = (0..i).filter(|j| !types[*j].generic && *j != t && !types[i].refs.iter().any(|(x, _)| x == j)).collect();
+                let cands: Vec<usize> = (0..i).filter(|j| !types[*j].generic && *j != t && !types[i].refs.iter().any(|(x, _)| x == j)).filter(|j| types[*j].krate == types[i].krate || !crates[types[*j].krate].contains('.')).collect();
                 if !cands.is_empty() {
                     let j = *rng.pick(&cands);
                     let jform = if types[j].krate == types[i].krate {
@@ -481,7 +491,7 @@ pub fn run(ctx: &Ctx) -> (Spec, Report) {
     }
     let spec = Spec {
         level: "exploration",
-        rule: format!("{n} generated workspaces of 1-5 crates (names with dashes and underscores), 1-3 files per crate at depth 1-4 under src, 1-3 types per file, references to earlier types in the same file, the same crate (crate:: / super:: / use self:: / use crate::) and other crates (use single / grouped / nested / glob, qualified and deep qualified paths), a fifth of the types generic and referred to with a type argument that is itself a reference in any of those forms (`other::Page<third::models::deep::Item>`), wrapped in nothing / Vec / Option / HashMap / Box<[..; 2]>, a sixth of the types serde-renamed, optional prefix and a foreign type mapping; real binary with --output-folder and, as twin, --output-file; TypeScript, Kotlin, Swift, Python (Scala and Go have no multi-file support); oracle: file set and names from the crate rule, every type in exactly its crate's file, union of definitions equals the single-file run, TS/Kotlin imports resolve to the defining file and name only defined types; distinct = (language, crate count, prefix?) and (language, reference form, renamed?)"),
+        rule: format!("{n} generated workspaces of 1-5 crates (names with dashes and underscores; a third of them with an extra `<first crate>.v2` directory, whose name differs from an existing crate only behind a dot), 1-3 files per crate at depth 1-4 under src, 1-3 types per file, references to earlier types in the same file, the same crate (crate:: / super:: / use self:: / use crate::) and other crates (use single / grouped / nested / glob, qualified and deep qualified paths), a fifth of the types generic and referred to with a type argument that is itself a reference in any of those forms (`other::Page<third::models::deep::Item>`), wrapped in nothing / Vec / Option / HashMap / Box<[..; 2]>, a sixth of the types serde-renamed, optional prefix and a foreign type mapping; real binary with --output-folder and, as twin, --output-file; TypeScript, Kotlin, Swift, Python (Scala and Go have no multi-file support); oracle: file set and names from the crate rule, every type in exactly its crate's file, union of definitions equals the single-file run, TS/Kotlin imports resolve to the defining file and name only defined types; distinct = (language, crate count, prefix?) and (language, reference form, renamed?)"),
         assumptions: vec![
             "`use .. as ..` renames are outside the stated domain and not generated".into(),
             "extra imports (a glob brings in every type of the crate) are allowed as long as the module defines them".into(),
